@@ -70,10 +70,13 @@ type plan struct {
 }
 
 func parseFile(repo, rel string) *ast.File {
-	f, err := parser.ParseFile(fset, filepath.Join(repo, rel), nil, parser.SkipObjectResolution)
+	f, err := parser.ParseFile(fset, filepath.Join(repo, rel), nil, 0)
 	if err != nil {
 		die("cannot parse %s: %v", rel, err)
 	}
+	// behaviour-preserving normal form (astnorm_gen.go): `if x != nil {A} else {B}` is `if x == nil {B} else {A}`,
+	// x++ is x += 1, log calls are dropped …
+	NormalizeFile(fset, f, AllNorm)
 	return f
 }
 
@@ -154,7 +157,7 @@ func charLit(e ast.Expr) (byte, bool) {
 
 // suffix of conversion.NodeKey(id, 'c')
 func nodeKeySuffix(e ast.Expr) (byte, bool) {
-	c, ok := isSelCall(e, "conversion", "NodeKey")
+	c, ok := isSelCall(keyExpr(e), "conversion", "NodeKey")
 	if !ok || len(c.Args) != 2 {
 		return 0, false
 	}
@@ -177,6 +180,46 @@ func fieldOf(e ast.Node, v string) string {
 	return found
 }
 
+// bucketVar: the name of the bucket parameter (the second parameter of ReadFrom / WriteTo / DeleteFrom) of the
+// method that is being read
+var bucketVar = "bucket"
+
+func setBucketVar(fd *ast.FuncDecl) {
+	var names []string
+	for _, f := range fd.Type.Params.List {
+		for _, n := range f.Names {
+			names = append(names, n.Name)
+		}
+	}
+	if len(names) != 2 {
+		die("%s: %s: expected the parameters (id, bucket)", pos(fd), fd.Name.Name)
+	}
+	bucketVar = names[1]
+}
+
+// keyExpr: the expression a key argument stands for — itself, or, when it is a local variable defined once by
+// `k := conversion.NodeKey(…)`, that call
+func keyExpr(e ast.Expr) ast.Expr {
+	if id, ok := e.(*ast.Ident); ok && id.Obj != nil {
+		if as, ok := id.Obj.Decl.(*ast.AssignStmt); ok && as.Tok == token.DEFINE && len(as.Lhs) == 1 && len(as.Rhs) == 1 {
+			if _, ok := isSelCall(as.Rhs[0], "conversion", "NodeKey"); ok {
+				return as.Rhs[0]
+			}
+		}
+	}
+	return e
+}
+
+// isKeyDefine: `k := conversion.NodeKey(id, 'c')` — a key bound to a local before it is used
+func isKeyDefine(st ast.Stmt) bool {
+	as, ok := st.(*ast.AssignStmt)
+	if !ok || as.Tok != token.DEFINE || len(as.Lhs) != 1 || len(as.Rhs) != 1 {
+		return false
+	}
+	_, ok = nodeKeySuffix(as.Rhs[0])
+	return ok
+}
+
 func isNilIdent(e ast.Expr) bool { id, ok := e.(*ast.Ident); return ok && id.Name == "nil" }
 
 // `if err := bucket.<op>(conversion.NodeKey(id,'c') [, value]); err != nil { return … }`
@@ -189,7 +232,7 @@ func bucketOpIf(st ast.Stmt, op string) (suffix byte, value ast.Expr, ok bool) {
 	if !isAs || len(as.Rhs) != 1 {
 		return
 	}
-	c, isC := isSelCall(as.Rhs[0], "bucket", op)
+	c, isC := isSelCall(as.Rhs[0], bucketVar, op)
 	if !isC || len(c.Args) < 1 {
 		return
 	}
@@ -240,10 +283,14 @@ func lenGuard(e ast.Expr, recv string) (string, bool) {
 
 func extractWrite(fd *ast.FuncDecl) []wstep {
 	_, recv := recvTypeName(fd)
+	setBucketVar(fd)
 	var steps []wstep
 	body := fd.Body.List
 	for i, st := range body {
 		if i == len(body)-1 && isReturnNil(st) {
+			continue
+		}
+		if isKeyDefine(st) {
 			continue
 		}
 		// a value computed first: `edgeBytes := conversion.EdgeListToBytes(g.edges)`
@@ -313,10 +360,14 @@ func valueField(val ast.Expr, recv string, at ast.Node) string {
 }
 
 func extractDelete(fd *ast.FuncDecl) []byte {
+	setBucketVar(fd)
 	var out []byte
 	body := fd.Body.List
 	for i, st := range body {
 		if i == len(body)-1 && isReturnNil(st) {
+			continue
+		}
+		if isKeyDefine(st) {
 			continue
 		}
 		sfx, _, ok := bucketOpIf(st, "Delete")
@@ -413,7 +464,8 @@ func extractRead(fd *ast.FuncDecl) []rstep {
 		die("%s: ReadFrom must have a named result", pos(fd))
 	}
 	res := fd.Type.Results.List[0].Names[0].Name
-	vars := map[string]byte{}   // local -> suffix it was read from
+	setBucketVar(fd)
+	vars := map[string]byte{}    // local -> suffix it was read from
 	pending := map[string]bool{} // local checked with `== nil { NotFound; return }`
 	var steps []rstep
 	body := fd.Body.List
@@ -422,13 +474,24 @@ func extractRead(fd *ast.FuncDecl) []rstep {
 		case *ast.AssignStmt:
 			// x := bucket.Get(conversion.NodeKey(id,'c'))
 			if len(s.Rhs) == 1 {
-				if c, ok := isSelCall(s.Rhs[0], "bucket", "Get"); ok && len(c.Args) == 1 {
+				if c, ok := isSelCall(s.Rhs[0], bucketVar, "Get"); ok && len(c.Args) == 1 {
 					sfx, ok := nodeKeySuffix(c.Args[0])
 					id, isId := s.Lhs[0].(*ast.Ident)
 					if !ok || !isId {
 						die("%s: ReadFrom: Get of an unknown key", pos(st))
 					}
 					vars[id.Name] = sfx
+					continue
+				}
+			}
+			if isKeyDefine(s) {
+				continue
+			}
+			// `err = cache.ErrNotFound` at the top level, after a found-branch that returned: nothing was found
+			// under the suffixes tried so far — the last step fails when its key is missing
+			if len(s.Lhs) == 1 && len(s.Rhs) == 1 && mentionsNotFound(s.Rhs[0]) {
+				if _, isId := s.Lhs[0].(*ast.Ident); isId && len(steps) > 0 && steps[len(steps)-1].stopIfFound && len(pending) == 0 {
+					steps[len(steps)-1].failIfMissing = true
 					continue
 				}
 			}
@@ -492,7 +555,20 @@ func extractRead(fd *ast.FuncDecl) []rstep {
 				}
 				steps = append(steps, rstep{sfx, f, stop, fail})
 			case token.EQL: // missing
-				if !mentionsNotFound(s.Body) || !hasReturn(s.Body) || s.Else != nil {
+				if s.Else != nil {
+					// if x == nil { NotFound } else { fill the field from x }   (normal form of the if/else in either orientation)
+					eb, isBlock := s.Else.(*ast.BlockStmt)
+					if !isBlock || !mentionsNotFound(s.Body) {
+						die("%s: ReadFrom: missing-branch of unknown shape", pos(st))
+					}
+					f := fieldOf(eb, res)
+					if f == "" {
+						die("%s: ReadFrom: found-branch does not fill a known field", pos(st))
+					}
+					steps = append(steps, rstep{sfx, f, true, true})
+					break
+				}
+				if !mentionsNotFound(s.Body) || !hasReturn(s.Body) {
 					die("%s: ReadFrom: missing-branch of unknown shape", pos(st))
 				}
 				pending[id.Name] = true
@@ -651,6 +727,18 @@ type flatFacts struct {
 	loopLow        string
 }
 
+func isCallResult(id *ast.Ident) bool {
+	if id.Obj == nil {
+		return false
+	}
+	as, ok := id.Obj.Decl.(*ast.AssignStmt)
+	if !ok || len(as.Rhs) != 1 {
+		return false
+	}
+	_, ok = as.Rhs[0].(*ast.CallExpr)
+	return ok
+}
+
 func extractFlat(repo string) flatFacts {
 	f := parseFile(repo, "shard/index/flat/flat.go")
 	fd := findMethod(f, "IndexFlat", "Search")
@@ -664,7 +752,8 @@ func extractFlat(repo string) flatFacts {
 			// if len(res) == cap(res) && dist >= *res[len(res)-1].Distance { return nil }
 			if be, ok := s.Cond.(*ast.BinaryExpr); ok && be.Op == token.LAND {
 				if r, ok := be.Y.(*ast.BinaryExpr); ok {
-					if id, ok := r.X.(*ast.Ident); ok && id.Name == "dist" {
+					// the candidate's distance: a local variable computed by a call (whatever it is called)
+					if id, ok := r.X.(*ast.Ident); ok && isCallResult(id) {
 						if l, ok := be.X.(*ast.BinaryExpr); ok && l.Op == token.EQL && len(s.Body.List) == 1 && isReturnNil(s.Body.List[0]) {
 							ff.skipOp = r.Op.String()
 						}
